@@ -88,3 +88,11 @@ package rawdb
 //@ func DeleteTxLookupEntry props C11
 //@ nobody
 //@ pure
+
+// Reads of the key-value store touch no Go object of the callers (same argument as for Put). ASSUMED frames.
+//@ func (DatabaseReader).Get props C11
+//@ trusted
+//@ pure
+//@ func (DatabaseReader).Has props C11
+//@ trusted
+//@ pure
